@@ -2631,12 +2631,15 @@ class CaseExpr(ColExpr):
         if self.default_val is not None and not types.is_const(self.default_val.dtype()):
             val_ftypes.add(self.default_val.ftype(agg_is_window=agg_is_window))
 
+        cond_ftypes = set()
         for cond, val in self.cases:
-            cond.ftype(agg_is_window=agg_is_window)
+            cond_ftype = cond.ftype(agg_is_window=agg_is_window)
+            if cond.dtype() is not None and not types.is_const(cond.dtype()):
+                cond_ftypes.add(cond_ftype)
             if val.dtype() is not None and not types.is_const(val.dtype()):
                 val_ftypes.add(val.ftype(agg_is_window=agg_is_window))
 
-        if None in val_ftypes:
+        if None in val_ftypes or None in cond_ftypes:
             return None
 
         if len(val_ftypes) == 0:
@@ -2651,6 +2654,12 @@ class CaseExpr(ColExpr):
                 + ", ".join(sorted(ftype.name.lower() for ftype in val_ftypes)),
                 source=self._fn_id,
             )
+
+        # a window / aggregate function in a condition makes the whole expression one
+        if Ftype.WINDOW in cond_ftypes:
+            self._ftype = Ftype.WINDOW
+        elif Ftype.AGGREGATE in cond_ftypes and self._ftype == Ftype.ELEMENT_WISE:
+            self._ftype = Ftype.AGGREGATE
 
         return self._ftype
 
